@@ -55,6 +55,17 @@ def letter_normalisation(ctx) -> T.Dict[str, str]:
                 ctx.require(isinstance(e, ast.Constant), "_parse_letter_version: non-constant spelling")
                 out[e.value] = dst
             n_branches += 1
+    # table form: `letter = TABLE.get(letter, letter)` with a constant dict
+    for _s, tg, v in shapes.iter_assigns(fn.node):
+        if isinstance(v, ast.Call) and isinstance(v.func, ast.Attribute) and v.func.attr == "get" and len(v.args) == 2 and unparse(v.args[0]) == unparse(v.args[1]) \
+                and unparse(v.args[0]) in ({p} | {unparse(t_) for _s2, t_, v2 in shapes.iter_assigns(fn.node) if isinstance(v2, ast.Call) and isinstance(v2.func, ast.Attribute) and v2.func.attr in ("lower", "casefold")}):
+            try:
+                tab = ctx.prog.fold(fn.module, v.func.value)
+            except AnalysisError:
+                continue
+            if isinstance(tab, dict) and all(isinstance(k_, str) and isinstance(x_, str) for k_, x_ in tab.items()):
+                out.update(tab)
+                n_branches += len(set(tab.values()))
     ctx.floor("R1", "normalisation branches in _parse_letter_version", n_branches, 4)
     return out
 
